@@ -366,7 +366,36 @@ def r16_10(ctx: Ctx) -> None:
                   construct="sanitiser returns unchecked name")
 
 
+def r16_11(ctx: Ctx) -> None:
+    """'... and accept every name that stays inside': (a) a leading './' swallows the separators behind it in BOTH gates ('.//a' names 'a':
+    cutting two characters leaves '/a', which then counts as absolute and is refused); (b) the sanitiser of write()/writeall() resolves '.',
+    '..' and repeated separators of what is left TEXTUALLY (posixpath.normpath) before it drops a leading climb - 'a/../../s/f' and
+    '/tmp/../../tmp/x/f' name sources inside the tree and must not be refused because their '..' is not at the very front."""
+    for mod, qual in (("helpers", "check_archive_path"), ("py7zr", "SevenZipFile._sanitize_archive_arcname")):
+        f = ctx.prog.func(mod, qual)
+        loops = [lp for lp in walk(f.node) if isinstance(lp, ast.While) and isinstance(lp.test, ast.Call) and attr_tail(lp.test) == "startswith" and lp.test.args
+                 and isinstance(lp.test.args[0], ast.Constant) and lp.test.args[0].value == "./"]
+        norms = [c for c in q.calls(f) if (dotted(c.func) or "").endswith("normpath")]
+        ok = bool(norms) or (bool(loops) and all(any(isinstance(x, ast.Call) and attr_tail(x) == "lstrip" and x.args and isinstance(x.args[0], ast.Constant) and "/" in str(x.args[0].value)
+                                                     for n in ast.walk(lp) if isinstance(n, ast.Assign) for x in ast.walk(n.value)) for lp in loops))
+        if qual == "check_archive_path" and not loops and not norms:
+            ok = True  # no stripping at all: pathlib judges the name as it is
+        ctx.check(ok, "R16.11", f, loops[0] if loops else f.node, f"{f.name}: './' is dropped together with the separators behind it",
+                  f"{f.qname} cuts a leading './' off and keeps the separators that follow: './/a' (the name 'a') becomes '/a', an absolute name, and is refused - writestr/writef/write "
+                  "raise ValueError for names that stay inside the archive root", construct=f"{f.name} dot-slash-slash")
+    f = shared.szf(ctx, "_sanitize_archive_arcname")
+    cfg = cfg_of(f.node)
+    norms = [c for c in q.calls(f) if (dotted(c.func) or "").endswith("normpath")]
+    climbs = [lp for lp in walk(f.node) if isinstance(lp, ast.While) and isinstance(lp.test, ast.Call) and attr_tail(lp.test) == "startswith" and lp.test.args
+              and isinstance(lp.test.args[0], ast.Constant) and lp.test.args[0].value == "../"]
+    ok = not climbs or (bool(norms) and all(cfg.reaches(q.node_for(f, n), cfg.by_ast[lp]) for n in norms for lp in climbs))
+    ctx.check(ok, "R16.11", f, climbs[0] if climbs else f.node, "the name is resolved textually before a leading climb is dropped",
+              "_sanitize_archive_arcname drops a leading '../' but does not resolve '..' components further inside the text first: `write('a/../../s/f')` and absolute sources spelled "
+              "with '..' ('/tmp/../../tmp/x/f') are refused with ValueError although they name files inside the tree (and '../s/f' is accepted)", construct="inner dot-dot not resolved")
+
+
 def run(ctx: Ctx) -> None:
+    r16_11(ctx)
     r16_10(ctx)
     r16_9(ctx)
     r16_8(ctx)
